@@ -168,7 +168,7 @@ def abs_target_program(rng):
     return [{'k': 'const', 'name': 'TABS', 'value': T, 'text': rng.choice([str, hex])(T)}] + pre + [x, {'k': 'pseudo', 'm': 'ret', 'ops': []}]
 
 
-PIN_X = ['beq', 'bne', 'blt', 'bgeu', 'jal0', 'jal1', 'j', 'beqz', 'bnez', 'diff']
+PIN_X = ['beq', 'bne', 'blt', 'bgeu', 'jal0', 'jal1', 'j', 'beqz', 'bnez', 'diff', 'c.beqz', 'c.bnez', 'c.j', 'c.jal']
 PIN_P = ['align4', 'align8', 'align16', 'align32', 'const', 'ext']
 PIN_S = [{'k': 'inst', 'm': 'addi', 'ops': [{'r': 8}, {'r': 8}, {'i': 1}]}, {'k': 'pseudo', 'm': 'li', 'ops': [{'r': 9}, {'i': 5}]},
          {'k': 'inst', 'm': 'and', 'ops': [{'r': 8}, {'r': 8}, {'r': 9}]}, {'k': 'pseudo', 'm': 'mv', 'ops': [{'r': 10}, {'r': 11}]},
@@ -186,7 +186,8 @@ def pinned_program(case):
     pin = PIN_P[(k // len(PIN_X)) % len(PIN_P)]
     shr = PIN_S[(k // (len(PIN_X) * len(PIN_P))) % len(PIN_S)]
     lead = (k // 7) % 3                                        # incompressible instructions in front (each 4 bytes in both modes)
-    reach = {'jal0': (1 << 20) - 2, 'jal1': (1 << 20) - 2, 'j': (1 << 20) - 2, 'diff': 2046}.get(x, 4094)
+    reach = {'jal0': (1 << 20) - 2, 'jal1': (1 << 20) - 2, 'j': (1 << 20) - 2, 'diff': 2046, 'c.beqz': 254, 'c.bnez': 254, 'c.j': 2046, 'c.jal': 2046}.get(x, 4094)
+    xsize = 2 if x.startswith('c.') else 4           # hand-written compressed transfers are 2 bytes in both modes
     n = {'align4': 4, 'align8': 8, 'align16': 16, 'align32': 32}.get(pin)
     keep = {'k': 'inst', 'm': 'lui', 'ops': [{'r': 5}, {'i': 0x12345}]}      # never compressed: the immediate is outside c.lui
     t = {'t': 'T'}
@@ -196,7 +197,9 @@ def pinned_program(case):
             'jal0': {'k': 'inst', 'm': 'jal', 'ops': [{'r': 0}, t]}, 'jal1': {'k': 'inst', 'm': 'jal', 'ops': [{'r': 1}, t]},
             'j': {'k': 'pseudo', 'm': 'j', 'ops': [t]}, 'beqz': {'k': 'pseudo', 'm': 'beqz', 'ops': [r, t]},
             'bnez': {'k': 'pseudo', 'm': 'bnez', 'ops': [r, t]},
-            'diff': {'k': 'inst', 'm': 'addi', 'ops': [{'r': 5}, {'r': 6}, {'diff': ['T', 'M']}]}}[x]
+            'diff': {'k': 'inst', 'm': 'addi', 'ops': [{'r': 5}, {'r': 6}, {'diff': ['T', 'M']}]},
+            'c.beqz': {'k': 'raw', 'text': 'c.beqz x%d, T' % (8 + k % 8)}, 'c.bnez': {'k': 'raw', 'text': 'c.bnez x%d, T' % (8 + k % 8)},
+            'c.j': {'k': 'raw', 'text': 'c.j T'}, 'c.jal': {'k': 'raw', 'text': 'c.jal T'}}[x]
     if x == 'diff' and n is None:
         pin, n = 'align8', 8                                      # a label difference has no absolute far end
     head = [dict(keep) for _ in range(lead)] + [dict(shr)]
@@ -218,7 +221,7 @@ def pinned_program(case):
         at += 2
         far += 2
     pad = (k // 11) % 2 * 2                                       # the align pads 0 or 2 bytes without -c
-    fill = far - pad - (at + 4)
+    fill = far - pad - (at + (4 if x == 'diff' else xsize))
     items = head + [{'k': 'gap', 'n': fill}, {'k': 'align', 'n': n}, {'k': 'label', 'name': 'T'}, {'k': 'pseudo', 'm': 'nop', 'ops': []}]
     if x == 'diff':
         items.append(xfer)
@@ -378,8 +381,8 @@ def run_shard(sh, deadline):
 
 
 def plan(tier, seed):
-    n = ({'rand': 3000, 'edge': 2500, 'shift': 500, 'dist': 1200, 'abs': 1500, 'pinned': 300, 'oddpin': 48} if tier == 'quick' else
-         {'rand': 120000, 'edge': 70000, 'shift': 10000, 'dist': 24000, 'abs': 60000, 'pinned': 1800, 'oddpin': 48})
+    n = ({'rand': 3000, 'edge': 2500, 'shift': 500, 'dist': 1200, 'abs': 1500, 'pinned': 420, 'oddpin': 48} if tier == 'quick' else
+         {'rand': 120000, 'edge': 70000, 'shift': 10000, 'dist': 24000, 'abs': 60000, 'pinned': 2520, 'oddpin': 48})
     cases = [{'kind': k, 'seed': seed, 'idx': i} for k, cnt in n.items() for i in range(cnt)]
     nsh = 64 if tier == 'quick' else 512
     shards = [{'cases': cases[i::nsh]} for i in range(nsh)]
